@@ -1005,6 +1005,671 @@ mod est_pre {
     }
 }
 
+// ---------------------------------------------------------------------------------------------
+// builder histories: the same final hyper-parameters reached through different histories of the
+// parameter object.  `fresh` sets the final values on a new builder; `reset` first sets OTHER values,
+// validates (`check_ref`) and fits the builder on OTHER data, then sets the final values on that same
+// object; `clone` does the same but sets the final values on a clone of the used builder; `refinal`
+// sets the final values, uses the builder, and sets the final values again on a clone.  Every setter
+// that `other` touches is also set by `finalv`, so the final configuration is the same by construction.
+mod est_builder {
+    use super::*;
+    use linfa::ParamGuard;
+
+    macro_rules! history {
+        ($hist:expr, $fresh:expr, $other:expr, $use_it:expr, $finalv:expr) => {{
+            let fresh = $fresh;
+            let other = $other;
+            let use_it = $use_it;
+            let finalv = $finalv;
+            match $hist {
+                "reset" => {
+                    let p = other(fresh());
+                    use_it(&p);
+                    finalv(p)
+                }
+                "clone" => {
+                    let p = other(fresh());
+                    use_it(&p);
+                    let q = p.clone();
+                    use_it(&p);
+                    finalv(q)
+                }
+                "refinal" => {
+                    let p = finalv(other(fresh()));
+                    use_it(&p);
+                    finalv(p.clone())
+                }
+                _ => finalv(fresh()),
+            }
+        }};
+    }
+
+    /// for parameter types that are not `Clone`: the clone steps are replaced by re-using the object
+    macro_rules! history_noclone {
+        ($hist:expr, $fresh:expr, $other:expr, $use_it:expr, $finalv:expr) => {{
+            let fresh = $fresh;
+            let other = $other;
+            let use_it = $use_it;
+            let finalv = $finalv;
+            match $hist {
+                "reset" | "clone" => {
+                    let p = other(fresh());
+                    use_it(&p);
+                    finalv(p)
+                }
+                "refinal" => {
+                    let p = finalv(other(fresh()));
+                    use_it(&p);
+                    finalv(p)
+                }
+                _ => finalv(fresh()),
+            }
+        }};
+    }
+
+    fn hist_of(inp: &Value) -> &str {
+        gets_or(inp, "hist", "fresh")
+    }
+
+    /// "other data": the rows in reverse order, shifted
+    struct Other {
+        x: Array2<f64>,
+        yc: Array1<usize>,
+        yr: Array1<f64>,
+    }
+    fn other_data(d: &Data) -> Other {
+        let n = d.x.nrows();
+        let mut x = Array2::zeros(d.x.raw_dim());
+        let mut yc = Array1::zeros(n);
+        let mut yr = Array1::zeros(n);
+        for i in 0..n {
+            for j in 0..d.x.ncols() {
+                x[[i, j]] = d.x[[n - 1 - i, j]] * 0.5 + 1.0;
+            }
+            yc[i] = d.yc[n - 1 - i];
+            yr[i] = d.yr[n - 1 - i] + 0.25;
+        }
+        Other { x, yc, yr }
+    }
+
+    fn docs_of(x: &Array2<f64>, yc: &Array1<usize>) -> Array1<String> {
+        let n = x.nrows();
+        Array1::from((0..n).map(|i| {
+            let mut w: Vec<String> = x.row(i).iter().enumerate().map(|(j, v)| format!("f{}-v{}", j % 2, v.floor() as i64)).collect();
+            w.push(format!("c{}", yc[i]));
+            w.push(["a", "b", "x"][i % 3].to_string());       // single-letter tokens
+            w.push("Mixed-Case".to_string());
+            w.join(" ")
+        }).collect::<Vec<_>>())
+    }
+
+    fn by_word(vocab: &[String], t: &Array2<f64>) -> String {
+        let mut m: BTreeMap<&String, Vec<u64>> = BTreeMap::new();
+        for (j, w) in vocab.iter().enumerate() {
+            m.insert(w, t.column(j).iter().map(|v| v.to_bits()).collect());
+        }
+        format!("{:?}", m)
+    }
+
+    pub fn countvec(inp: &Value, d: &Data, o: &mut Obs) {
+        use linfa_preprocessing::{CountVectorizer, Tokenizer};
+        let od = other_data(d);
+        let docs = docs_of(&d.x, &d.yc);
+        let odocs = docs_of(&od.x, &od.yc);
+        let params = history!(
+            hist_of(inp),
+            || CountVectorizer::params(),
+            |p: linfa_preprocessing::CountVectorizerParams| p.n_gram_range(1, 2).document_frequency(0.1, 0.9).max_features(Some(4)).convert_to_lowercase(false),
+            |p: &linfa_preprocessing::CountVectorizerParams| {
+                let _ = p.check_ref().map(|_| ());
+                let _ = p.fit(&odocs);
+            },
+            |p: linfa_preprocessing::CountVectorizerParams| p
+                .tokenizer(Tokenizer::Regex(r"\b[\w-]+\b".to_string()))
+                .n_gram_range(1, 1)
+                .document_frequency(0.0, 1.0)
+                .max_features(None)
+                .convert_to_lowercase(true)
+        );
+        match params.fit(&docs) {
+            Ok(m) => {
+                let vocab = m.vocabulary().clone();
+                let mut sorted = vocab.clone();
+                sorted.sort();
+                o.text("vocabulary_set", &sorted.join(" "));
+                match m.transform(&docs) {
+                    Ok(t) => o.text("transform_by_word", &by_word(&vocab, &t.to_dense().mapv(|v| v as f64))),
+                    Err(e) => o.err("transform_by_word", &e),
+                }
+            }
+            Err(e) => o.err("model", &e),
+        }
+    }
+
+    pub fn tfidf(inp: &Value, d: &Data, o: &mut Obs) {
+        use linfa_preprocessing::tf_idf_vectorization::TfIdfVectorizer;
+        use linfa_preprocessing::Tokenizer;
+        let od = other_data(d);
+        let docs = docs_of(&d.x, &d.yc);
+        let odocs = docs_of(&od.x, &od.yc);
+        let params = history!(
+            hist_of(inp),
+            || TfIdfVectorizer::default(),
+            |p: TfIdfVectorizer| p.n_gram_range(1, 2).document_frequency(0.1, 0.9).max_features(Some(4)),
+            |p: &TfIdfVectorizer| {
+                let _ = p.fit(&odocs);
+            },
+            |p: TfIdfVectorizer| p.tokenizer(Tokenizer::Regex(r"\b[\w-]+\b".to_string())).n_gram_range(1, 1).document_frequency(0.0, 1.0).max_features(None)
+        );
+        match params.fit(&docs) {
+            Ok(m) => {
+                let vocab = m.vocabulary().clone();
+                let mut sorted = vocab.clone();
+                sorted.sort();
+                o.text("vocabulary_set", &sorted.join(" "));
+                match m.transform(&docs) {
+                    Ok(t) => o.text("transform_by_word", &by_word(&vocab, &t.to_dense())),
+                    Err(e) => o.err("transform_by_word", &e),
+                }
+            }
+            Err(e) => o.err("model", &e),
+        }
+    }
+
+    pub fn kmeans(inp: &Value, d: &Data, o: &mut Obs) {
+        use linfa_clustering::{KMeans, KMeansInit, KMeansParams};
+        use linfa_nn::distance::L2Dist;
+        type P = KMeansParams<f64, Xoshiro256Plus, L2Dist>;
+        let od = other_data(d);
+        let ods = DatasetBase::from(od.x.clone());
+        let ds = DatasetBase::from(d.x.clone());
+        let seed = geti(inp, "seed") as u64;
+        let params = history!(
+            hist_of(inp),
+            || KMeans::params_with(3, Xoshiro256Plus::seed_from_u64(seed), L2Dist),
+            |p: P| p.n_runs(3).tolerance(1e-2).max_n_iterations(2).init_method(KMeansInit::Random),
+            |p: &P| {
+                let _ = p.check_ref().map(|_| ());
+                let _ = p.fit(&ods);
+            },
+            |p: P| p.n_runs(2).tolerance(1e-5).max_n_iterations(6).init_method(KMeansInit::KMeansPlusPlus)
+        );
+        match params.fit(&ds) {
+            Ok(m) => {
+                o.model("model", &m);
+                let p: Array1<usize> = m.predict(&d.xt);
+                o.u("predict", p.iter());
+            }
+            Err(e) => o.err("model", &e),
+        }
+    }
+
+    pub fn gmm(inp: &Value, d: &Data, o: &mut Obs) {
+        use linfa_clustering::{GaussianMixtureModel, GmmCovarType, GmmInitMethod, GmmParams};
+        type P = GmmParams<f64, Xoshiro256Plus>;
+        let od = other_data(d);
+        let ods = DatasetBase::from(od.x.clone());
+        let ds = DatasetBase::from(d.x.clone());
+        let seed = geti(inp, "seed") as u64;
+        let params = history!(
+            hist_of(inp),
+            || GaussianMixtureModel::params_with_rng(2, Xoshiro256Plus::seed_from_u64(seed)),
+            |p: P| p.n_runs(1).tolerance(1e-2).reg_covariance(1e-2).max_n_iterations(3).init_method(GmmInitMethod::Random).covariance_type(GmmCovarType::Full),
+            |p: &P| {
+                let _ = p.check_ref().map(|_| ());
+                let _ = p.fit(&ods);
+            },
+            |p: P| p.n_runs(2).tolerance(1e-4).reg_covariance(1e-3).max_n_iterations(15).init_method(GmmInitMethod::KMeans).covariance_type(GmmCovarType::Full)
+        );
+        match params.fit(&ds) {
+            Ok(m) => {
+                o.model("model", &m);
+                o.f("predict_proba", m.predict_proba(&d.xt).iter());
+            }
+            Err(e) => o.err("model", &e),
+        }
+    }
+
+    pub fn svc(inp: &Value, d: &Data, o: &mut Obs) {
+        use linfa_svm::{Svm, SvmParams};
+        type P = SvmParams<f64, bool>;
+        let od = other_data(d);
+        let ods = DatasetBase::new(od.x.clone(), od.yc.mapv(|c| c == 0));
+        let ds = DatasetBase::new(d.x.clone(), d.yc.mapv(|c| c == 0));
+        let params = history!(
+            hist_of(inp),
+            || Svm::<f64, bool>::params(),
+            |p: P| p.pos_neg_weights(1.0, 2.0).linear_kernel().eps(1e-2).shrinking(true),
+            |p: &P| {
+                let _ = p.check_ref().map(|_| ());
+                let _ = p.fit(&ods);
+            },
+            |p: P| p.pos_neg_weights(5.0, 5.0).gaussian_kernel(20.0).eps(1e-3).shrinking(false)
+        );
+        match params.fit(&ds) {
+            Ok(m) => {
+                o.model("model", &m);
+                let p: Array1<bool> = m.predict(&d.xt);
+                o.u("predict", p.iter().map(|b| *b as usize).collect::<Vec<_>>().iter());
+            }
+            Err(e) => o.err("model", &e),
+        }
+    }
+
+    pub fn svr(inp: &Value, d: &Data, o: &mut Obs) {
+        use linfa_svm::{Svm, SvmParams};
+        type P = SvmParams<f64, f64>;
+        let od = other_data(d);
+        let ods = DatasetBase::new(od.x.clone(), od.yr.clone());
+        let ds = DatasetBase::new(d.x.clone(), d.yr.clone());
+        let params = history!(
+            hist_of(inp),
+            || Svm::<f64, f64>::params(),
+            |p: P| p.nu_svr(0.4, Some(2.0)).linear_kernel().eps(1e-2),
+            |p: &P| {
+                let _ = p.check_ref().map(|_| ());
+                let _ = p.fit(&ods);
+            },
+            |p: P| p.c_svr(1.0, Some(0.5)).gaussian_kernel(20.0).eps(1e-3)
+        );
+        match params.fit(&ds) {
+            Ok(m) => {
+                o.model("model", &m);
+                let p: Array1<f64> = m.predict(&d.xt);
+                o.f("predict", p.iter());
+            }
+            Err(e) => o.err("model", &e),
+        }
+    }
+
+    pub fn tree(inp: &Value, d: &Data, o: &mut Obs) {
+        use linfa_trees::{DecisionTree, DecisionTreeParams, SplitQuality};
+        type P = DecisionTreeParams<f64, usize>;
+        let od = other_data(d);
+        let ods = DatasetBase::new(od.x.clone(), od.yc.clone());
+        let ds = DatasetBase::new(d.x.clone(), d.yc.clone());
+        let params = history!(
+            hist_of(inp),
+            || DecisionTree::params(),
+            |p: P| p.split_quality(SplitQuality::Entropy).max_depth(Some(2)).min_weight_split(4.0).min_weight_leaf(2.0).min_impurity_decrease(1e-3),
+            |p: &P| {
+                let _ = p.check_ref().map(|_| ());
+                let _ = p.fit(&ods);
+            },
+            |p: P| p.split_quality(SplitQuality::Gini).max_depth(Some(5)).min_weight_split(2.0).min_weight_leaf(1.0).min_impurity_decrease(1e-5)
+        );
+        match params.fit(&ds) {
+            Ok(m) => {
+                o.model("model", &m);
+                let p: Array1<usize> = m.predict(&d.xt);
+                o.u("predict", p.iter());
+            }
+            Err(e) => o.err("model", &e),
+        }
+    }
+
+    pub fn elasticnet(inp: &Value, d: &Data, o: &mut Obs) {
+        use linfa_elasticnet::{ElasticNet, ElasticNetParams};
+        type P = ElasticNetParams<f64>;
+        let od = other_data(d);
+        let ods = DatasetBase::new(od.x.clone(), od.yr.clone());
+        let ds = DatasetBase::new(d.x.clone(), d.yr.clone());
+        let params = history!(
+            hist_of(inp),
+            || ElasticNet::params(),
+            |p: P| p.penalty(1.5).l1_ratio(0.9).with_intercept(false).tolerance(1e-2).max_iterations(5),
+            |p: &P| {
+                let _ = p.check_ref().map(|_| ());
+                let _ = p.fit(&ods);
+            },
+            |p: P| p.penalty(0.3).l1_ratio(0.5).with_intercept(true).tolerance(1e-6).max_iterations(300)
+        );
+        match params.fit(&ds) {
+            Ok(m) => {
+                o.model("model", &m);
+                let p: Array1<f64> = m.predict(&d.xt);
+                o.f("predict", p.iter());
+            }
+            Err(e) => o.err("model", &e),
+        }
+    }
+
+    pub fn logistic(inp: &Value, d: &Data, o: &mut Obs) {
+        use linfa_logistic::LogisticRegression;
+        type P = LogisticRegression<f64>;
+        let od = other_data(d);
+        let ods = DatasetBase::new(od.x.clone(), od.yc.mapv(|c| c == 0));
+        let ds = DatasetBase::new(d.x.clone(), d.yc.mapv(|c| c == 0));
+        let params = history!(
+            hist_of(inp),
+            || LogisticRegression::default(),
+            |p: P| p.alpha(2.0).with_intercept(false).max_iterations(3).gradient_tolerance(1e-2),
+            |p: &P| {
+                let _ = p.check_ref().map(|_| ());
+                let _ = p.fit(&ods);
+            },
+            |p: P| p.alpha(0.5).with_intercept(true).max_iterations(80).gradient_tolerance(1e-4)
+        );
+        match params.fit(&ds) {
+            Ok(m) => {
+                o.model("model", &m);
+                o.f("proba", m.predict_probabilities(&d.xt).iter());
+            }
+            Err(e) => o.err("model", &e),
+        }
+    }
+
+    pub fn mlogistic(inp: &Value, d: &Data, o: &mut Obs) {
+        use linfa_logistic::MultiLogisticRegression;
+        type P = MultiLogisticRegression<f64>;
+        let od = other_data(d);
+        let ods = DatasetBase::new(od.x.clone(), od.yc.clone());
+        let ds = DatasetBase::new(d.x.clone(), d.yc.clone());
+        let params = history!(
+            hist_of(inp),
+            || MultiLogisticRegression::default(),
+            |p: P| p.alpha(2.0).with_intercept(false).max_iterations(3).gradient_tolerance(1e-2),
+            |p: &P| {
+                let _ = p.check_ref().map(|_| ());
+                let _ = p.fit(&ods);
+            },
+            |p: P| p.alpha(0.5).with_intercept(true).max_iterations(80).gradient_tolerance(1e-4)
+        );
+        match params.fit(&ds) {
+            Ok(m) => {
+                o.model("model", &m);
+                o.f("proba", m.predict_probabilities(&d.xt).iter());
+            }
+            Err(e) => o.err("model", &e),
+        }
+    }
+
+    pub fn glm(inp: &Value, d: &Data, o: &mut Obs) {
+        use linfa_linear::{TweedieRegressor, TweedieRegressorParams};
+        type P = TweedieRegressorParams<f64>;
+        let od = other_data(d);
+        let ods = DatasetBase::new(od.x.mapv(|v| v * 0.0625), od.yr.mapv(|v| v.abs() * 0.25 + 0.5));
+        let ds = DatasetBase::new(d.x.mapv(|v| v * 0.0625), d.yr.mapv(|v| v.abs() * 0.25 + 0.5));
+        let params = history!(
+            hist_of(inp),
+            || TweedieRegressor::params(),
+            |p: P| p.power(0.0).alpha(1.0).fit_intercept(false).max_iter(3).tol(1e-2),
+            |p: &P| {
+                let _ = p.check_ref().map(|_| ());
+                let _ = p.fit(&ods);
+            },
+            |p: P| p.power(1.0).alpha(0.1).fit_intercept(true).max_iter(60).tol(1e-4)
+        );
+        match params.fit(&ds) {
+            Ok(m) => {
+                o.model("model", &m);
+                let p: Array1<f64> = m.predict(&d.xt.mapv(|v| v * 0.0625));
+                o.f("predict", p.iter());
+            }
+            Err(e) => o.err("model", &e),
+        }
+    }
+
+    pub fn pls(inp: &Value, d: &Data, o: &mut Obs) {
+        use linfa_pls::{PlsRegression, PlsRegressionParams};
+        type P = PlsRegressionParams<f64>;
+        let two = |x: &Array2<f64>, y: &Array1<f64>| {
+            let mut t = Array2::zeros((x.nrows(), 2));
+            for i in 0..x.nrows() {
+                t[[i, 0]] = y[i];
+                t[[i, 1]] = 2.0 * y[i] - x[[i, 0]] + (i % 3) as f64;
+            }
+            t
+        };
+        let od = other_data(d);
+        let ods = DatasetBase::new(od.x.clone(), two(&od.x, &od.yr));
+        let ds = DatasetBase::new(d.x.clone(), two(&d.x, &d.yr));
+        let nc = d.x.ncols().min(2).max(1);
+        let params = history_noclone!(
+            hist_of(inp),
+            || PlsRegression::<f64>::params(nc),
+            |p: P| p.max_iterations(3).tolerance(1e-2).scale(false),
+            |p: &P| {
+                let _ = p.check_ref().map(|_| ());
+                let _ = p.fit(&ods);
+            },
+            |p: P| p.max_iterations(200).tolerance(1e-8).scale(true)
+        );
+        match params.fit(&ds) {
+            Ok(m) => {
+                o.model("model", &m);
+                let p: Array2<f64> = m.predict(&d.xt);
+                o.f("predict", p.iter());
+            }
+            Err(e) => o.err("model", &e),
+        }
+    }
+
+    pub fn ftrl(inp: &Value, d: &Data, o: &mut Obs) {
+        use linfa_ftrl::{Ftrl, FtrlParams};
+        type P = FtrlParams<f64, Xoshiro256Plus>;
+        let od = other_data(d);
+        let ods = DatasetBase::new(od.x.clone(), od.yc.mapv(|c| c == 0));
+        let ds = DatasetBase::new(d.x.clone(), d.yc.mapv(|c| c == 0));
+        let seed = geti(inp, "seed") as u64;
+        let params = history!(
+            hist_of(inp),
+            || Ftrl::params_with_rng(Xoshiro256Plus::seed_from_u64(seed)),
+            |p: P| p.alpha(0.5).beta(2.0).l1_ratio(0.5).l2_ratio(0.1),
+            |p: &P| {
+                let _ = p.check_ref().map(|_| ());
+                let _ = p.fit_with(None, &ods);
+            },
+            |p: P| p.alpha(0.05).beta(1.0).l1_ratio(0.01).l2_ratio(1.0)
+        );
+        match params.fit_with(None, &ds) {
+            Ok(m) => {
+                o.model("model", &m);
+                o.f("weights", m.get_weights().iter());
+            }
+            Err(e) => o.err("model", &e),
+        }
+    }
+
+    pub fn gnb(inp: &Value, d: &Data, o: &mut Obs) {
+        use linfa_bayes::{GaussianNb, GaussianNbParams};
+        type P = GaussianNbParams<f64, usize>;
+        let od = other_data(d);
+        let ods = DatasetBase::new(od.x.clone(), od.yc.clone());
+        let ds = DatasetBase::new(d.x.clone(), d.yc.clone());
+        let params = history!(
+            hist_of(inp),
+            || GaussianNb::params(),
+            |p: P| p.var_smoothing(1e-2),
+            |p: &P| {
+                let _ = p.check_ref().map(|_| ());
+                let _ = p.fit(&ods);
+            },
+            |p: P| p.var_smoothing(1e-9)
+        );
+        match params.fit(&ds) {
+            Ok(m) => {
+                o.model("model", &m);
+                let p: Array1<usize> = m.predict(&d.xt);
+                o.u("predict", p.iter());
+            }
+            Err(e) => o.err("model", &e),
+        }
+    }
+
+    pub fn dbscan(inp: &Value, d: &Data, o: &mut Obs) {
+        use linfa_clustering::{Dbscan, DbscanParams};
+        use linfa_nn::{distance::L2Dist, CommonNearestNeighbour};
+        type P = DbscanParams<f64, L2Dist, CommonNearestNeighbour>;
+        let od = other_data(d);
+        let params = history!(
+            hist_of(inp),
+            || Dbscan::params(3),
+            |p: P| p.tolerance(0.3).nn_algo(CommonNearestNeighbour::LinearSearch),
+            |p: &P| {
+                let _ = p.check_ref().map(|_| ());
+                let _ = p.transform(&od.x);
+            },
+            |p: P| p.tolerance(1.5).nn_algo(CommonNearestNeighbour::BallTree)
+        );
+        match params.transform(&d.x) {
+            Ok(l) => o.labels("labels", &opt_labels(&l)),
+            Err(e) => o.err("labels", &e),
+        }
+    }
+
+    pub fn ica(inp: &Value, d: &Data, o: &mut Obs) {
+        use linfa_ica::fast_ica::{FastIca, GFunc};
+        use linfa_ica::hyperparams::FastIcaParams;
+        type P = FastIcaParams<f64>;
+        let od = other_data(d);
+        let ods = DatasetBase::from(od.x.clone());
+        let ds = DatasetBase::from(d.x.clone());
+        let nc = d.x.ncols().min(2).max(1);
+        let seed = geti(inp, "seed") as usize;
+        let params = history!(
+            hist_of(inp),
+            || FastIca::params(),
+            |p: P| p.ncomponents(1).gfunc(GFunc::Exp).max_iter(3).tol(1e-1).random_state(seed + 17),
+            |p: &P| {
+                let _ = p.check_ref().map(|_| ());
+                let _ = p.fit(&ods);
+            },
+            |p: P| p.ncomponents(nc).gfunc(GFunc::Logcosh(1.0)).max_iter(60).tol(1e-4).random_state(seed)
+        );
+        match params.fit(&ds) {
+            Ok(m) => {
+                o.model("model", &m);
+                let p: Array2<f64> = m.predict(&d.xt);
+                o.f("predict", p.iter());
+            }
+            Err(e) => o.err("model", &e),
+        }
+    }
+
+    pub fn randproj(inp: &Value, d: &Data, o: &mut Obs) {
+        use linfa_reduction::random_projection::{GaussianRandomProjection, GaussianRandomProjectionParams};
+        type P = GaussianRandomProjectionParams<Xoshiro256Plus>;
+        let od = other_data(d);
+        let ods = DatasetBase::from(od.x.clone());
+        let ds = DatasetBase::from(d.x.clone());
+        let td = d.x.ncols().min(2).max(1);
+        let seed = geti(inp, "seed") as u64;
+        let params = history_noclone!(
+            hist_of(inp),
+            || GaussianRandomProjection::<f64>::params_with_rng(Xoshiro256Plus::seed_from_u64(seed)),
+            |p: P| p.target_dim(1),
+            |p: &P| {
+                let _ = p.check_ref().map(|_| ());
+                let _ = p.fit(&ods);
+            },
+            |p: P| p.target_dim(td)
+        );
+        match params.fit(&ds) {
+            Ok(m) => {
+                let t: Array2<f64> = m.transform(&d.xt);
+                o.f("transform", t.iter());
+            }
+            Err(e) => o.err("model", &e),
+        }
+    }
+
+    pub fn pca(inp: &Value, d: &Data, o: &mut Obs) {
+        use linfa_reduction::{Pca, PcaParams};
+        let od = other_data(d);
+        let ods = DatasetBase::from(od.x.clone());
+        let ds = DatasetBase::from(d.x.clone());
+        let nc = d.x.ncols().min(2).max(1);
+        let params = history!(
+            hist_of(inp),
+            || Pca::params(nc),
+            |p: PcaParams| p.whiten(true),
+            |p: &PcaParams| {
+                let _ = p.fit(&ods);
+            },
+            |p: PcaParams| p.whiten(false)
+        );
+        match params.fit(&ds) {
+            Ok(m) => {
+                o.model("model", &m);
+                let p: Array2<f64> = m.predict(&d.xt);
+                o.f("predict", p.iter());
+            }
+            Err(e) => o.err("model", &e),
+        }
+    }
+
+    pub fn hier(inp: &Value, d: &Data, o: &mut Obs) {
+        use linfa_hierarchical::{HierarchicalCluster, Method};
+        use linfa_kernel::{Kernel, KernelMethod};
+        let od = other_data(d);
+        let kern = |x: &Array2<f64>| Kernel::params().method(KernelMethod::Gaussian(4.0)).transform(x.view());
+        let params = history!(
+            hist_of(inp),
+            || HierarchicalCluster::<f64>::default(),
+            |p: HierarchicalCluster<f64>| p.with_method(Method::Single).max_distance(0.5),
+            |p: &HierarchicalCluster<f64>| {
+                let _ = p.check_ref().map(|_| ());
+                let _ = p.transform(kern(&od.x)).map(|_| ());
+            },
+            |p: HierarchicalCluster<f64>| p.with_method(Method::Average).num_clusters(3)
+        );
+        match params.transform(kern(&d.x)) {
+            Ok(ds) => o.labels("labels", &ds.targets().iter().map(|v| *v as i64).collect::<Vec<_>>()),
+            Err(e) => o.err("labels", &e),
+        }
+    }
+
+    pub fn scaler(inp: &Value, d: &Data, o: &mut Obs) {
+        use linfa_preprocessing::linear_scaling::{LinearScaler, LinearScalerParams, ScalingMethod};
+        let od = other_data(d);
+        let ods = DatasetBase::from(od.x.clone());
+        let ds = DatasetBase::from(d.x.clone());
+        let params = history!(
+            hist_of(inp),
+            || LinearScaler::<f64>::standard(),
+            |p: LinearScalerParams<f64>| p.method(ScalingMethod::MaxAbs),
+            |p: &LinearScalerParams<f64>| {
+                let _ = p.fit(&ods);
+            },
+            |p: LinearScalerParams<f64>| p.method(ScalingMethod::MinMax(-1.0, 2.0))
+        );
+        match params.fit(&ds) {
+            Ok(m) => {
+                o.model("model", &m);
+                let t: Array2<f64> = m.transform(d.xt.clone());
+                o.f("transform", t.iter());
+            }
+            Err(e) => o.err("model", &e),
+        }
+    }
+
+    pub fn whiten(inp: &Value, d: &Data, o: &mut Obs) {
+        use linfa_preprocessing::whitening::{Whitener, WhiteningMethod};
+        let od = other_data(d);
+        let ods = DatasetBase::from(od.x.clone());
+        let ds = DatasetBase::from(d.x.clone());
+        let params = history!(
+            hist_of(inp),
+            || Whitener::pca(),
+            |p: Whitener| p.method(WhiteningMethod::Cholesky),
+            |p: &Whitener| {
+                let _ = p.fit(&ods);
+            },
+            |p: Whitener| p.method(WhiteningMethod::Zca)
+        );
+        match params.fit(&ds) {
+            Ok(m) => {
+                o.model("model", &m);
+                let t: Array2<f64> = m.transform(d.xt.clone());
+                o.f("transform", t.iter());
+            }
+            Err(e) => o.err("model", &e),
+        }
+    }
+}
+
 type EstFn = fn(&Value, &Data, &mut Obs);
 
 fn registry() -> BTreeMap<&'static str, EstFn> {
@@ -1043,6 +1708,27 @@ fn registry() -> BTreeMap<&'static str, EstFn> {
     m.insert("countvec", est_pre::countvec);
     m.insert("tfidf", est_pre::tfidf);
     m.insert("pearson", est_pre::pearson);
+    m.insert("b_countvec", est_builder::countvec);
+    m.insert("b_tfidf", est_builder::tfidf);
+    m.insert("b_kmeans", est_builder::kmeans);
+    m.insert("b_gmm", est_builder::gmm);
+    m.insert("b_svc", est_builder::svc);
+    m.insert("b_svr", est_builder::svr);
+    m.insert("b_tree", est_builder::tree);
+    m.insert("b_elasticnet", est_builder::elasticnet);
+    m.insert("b_logistic", est_builder::logistic);
+    m.insert("b_mlogistic", est_builder::mlogistic);
+    m.insert("b_glm", est_builder::glm);
+    m.insert("b_pls", est_builder::pls);
+    m.insert("b_ftrl", est_builder::ftrl);
+    m.insert("b_gnb", est_builder::gnb);
+    m.insert("b_dbscan", est_builder::dbscan);
+    m.insert("b_ica", est_builder::ica);
+    m.insert("b_randproj", est_builder::randproj);
+    m.insert("b_pca", est_builder::pca);
+    m.insert("b_hier", est_builder::hier);
+    m.insert("b_scaler", est_builder::scaler);
+    m.insert("b_whiten", est_builder::whiten);
     m
 }
 
@@ -1147,13 +1833,20 @@ fn run_case_in_process(case: &Value, proc_ord: i64, pools: &mut Pools, reg: &BTr
             return out;
         }
     };
-    for pl in geta(inp, "plan") {
-        let threads = pl[0].as_i64().unwrap() as usize;
-        let reps = pl[1].as_i64().unwrap();
-        for rep in 0..reps {
-            let (obs, raw, par, pmsg) = run_once(f, inp, &data, threads, hook, pools);
-            out.push(json!({"ev": "run", "proc": proc_ord, "thr": threads, "rep": rep, "obs": obs, "raw": raw, "par": par,
-                            "panic": pmsg.unwrap_or_default()}));
+    // builder histories of the case (default: the fresh builder only); the history is part of the
+    // environment of a run, the estimator reads it from `inp.hist`
+    let hists: Vec<String> = inp.get("hists").and_then(|h| h.as_array()).map(|a| a.iter().filter_map(|x| x.as_str().map(|s| s.to_string())).collect()).unwrap_or_else(|| vec!["fresh".to_string()]);
+    for hist in &hists {
+        let mut inp_h = inp.clone();
+        inp_h["hist"] = json!(hist);
+        for pl in geta(inp, "plan") {
+            let threads = pl[0].as_i64().unwrap() as usize;
+            let reps = pl[1].as_i64().unwrap();
+            for rep in 0..reps {
+                let (obs, raw, par, pmsg) = run_once(f, &inp_h, &data, threads, hook, pools);
+                out.push(json!({"ev": "run", "proc": proc_ord, "thr": threads, "rep": rep, "hist": hist, "obs": obs, "raw": raw, "par": par,
+                                "panic": pmsg.unwrap_or_default()}));
+            }
         }
     }
     out
